@@ -92,13 +92,24 @@ def plan(tier, seed):
     for n_temps, steps in ((1, 2), (2, 2), (3, 1)):
         for heated in (False, True):
             jobs.append(("orch", n_temps, steps, heated, 5000))
+    jobs.append(("fit-handoff", seed, 100))
     jobs.sort(key=lambda j: -j[-1])
     return jobs
 
 
 def run_job(job):
     kind = job[0]
-    return {"base": job_base, "interval": job_interval, "swap": job_swap, "irreducible": job_irreducible, "orch": job_orch}[kind](job)
+    return {"base": job_base, "interval": job_interval, "swap": job_swap, "irreducible": job_irreducible, "orch": job_orch, "fit-handoff": job_fit_handoff}[kind](job)
+
+
+def job_fit_handoff(job):
+    """DenovoMCMC.fit / _mcmc -> _denovo_assembler: the sampler object's parameters reach the keyword they belong to (vmc/handoff.py)"""
+    from .. import handoff
+
+    r = Result()
+    handoff.asm_fit(r, {"kind": "job", "job": job})
+    r.sample({"orchestration": "DenovoMCMC.fit -> _mcmc -> _denovo_assembler"}, cap=1)
+    return r
 
 
 def nontrivial_state(s):
